@@ -29,7 +29,7 @@ FINISH = dict(
          "key types (119..3272 bytes), random blobs, real accounts gaining/losing contacts, endpoints and "
          "past keys; the first write finds the file absent, shorter, longer or of equal length; recorder / "
          "failing / allowed-to-fail file hooks; named, numeric, unknown and invalid owners. Each history runs "
-         "through the real code and through Storage.runHistory (result class, bytes, mode, owner compared "
+         "through the real code and through Storage.runHistory (result class and bytes compared; mode and owner are C13's "
          "after every step); Spec.C02.holds judges every prefix on the bytes read back right after the call "
          "returned and the whole history on the files read by the harness at the end; the hook sequence "
          "seen by the recorder is judged by Spec.C02.bracketHolds. non-trivial = some write replaced a "
